@@ -27,7 +27,7 @@ TRUSTED = [
 ASSUMPTIONS = [
     'operations of the overridden interface only (__getitem__ __setitem__ __contains__ __len__ __iter__); the inherited dict methods are known finding C15-inherited-dict',
     'capacity is a non-negative int and is not changed after construction',
-    'every modification of a file changes its mtime (logical clock); a modification during a load is a replacement (new file renamed over the name) of the file the load opens, landing before or right after the open() of directory() (history op LR); in-place rewrites of a file that is being read are not covered',
+    'every modification of a file changes its mtime: to the next value of a logical clock (W, T) or to any value, older ones included, that differs from the file\'s current mtime and from every mtime the loader remembers for that file (WA; a different content under a remembered mtime is the inherent limit of reloading by modification time, theorem mtime_reuse_serves_stale); a modification during a load is a replacement (new file renamed over the name) of the file the load opens, landing before or right after the open() of directory() (history op LR); in-place rewrites of a file that is being read are not covered',
 ]
 
 NKEYS = 3
@@ -315,6 +315,14 @@ def run_history(cfg, ops, strict, root, want_answers=True):
     try:
         for i, op in enumerate(ops):
             if op[0] not in ('L', 'LR'):
+                if op[0] == 'WA':
+                    loc = (op[1], op[2], op[3])
+                    if loc in spec.fs and op[6] < spec.fs[loc][2]:
+                        stats['mtime-backwards'] += 1
+                        if loc in [e.loc for e in spec.cache.values()]:
+                            stats['mtime-backwards:file of a cached template'] += 1
+                    else:
+                        stats['mtime-explicit-not-backwards'] += 1
                 spec.fs_op(op)
                 run.fs_op(op)
                 answers.append('U')
